@@ -47,9 +47,25 @@ static inline int spec_enabled(int plan, snapraid_info info, block_off_t i, time
 	return 1;
 }
 
+static unsigned char G_DIG_CUR[HASH_MAX], G_DIG_PREV[HASH_MAX];
+static unsigned g_mh_kinds;
 #ifdef VERIF_CBMC
 void log_tag(const char *format, ...) { (void)format; }
 void log_fatal(const char *format, ...) { (void)format; }
+void log_error(const char *format, ...) { (void)format; }
+void os_abort(void) { __CPROVER_assume(0); }
+void memhash(unsigned kind, const unsigned char *seed, void *digest, const void *src, size_t size)
+{
+	int k;
+	(void)seed; (void)src; (void)size;
+	g_mh_kinds |= 1u << kind;
+	for (k = 0; k < HASH_MAX; ++k)
+		((unsigned char *)digest)[k] = kind == HASH_SPOOKY2 ? G_DIG_PREV[k] : G_DIG_CUR[k];
+}
+unsigned memdiff(const unsigned char *a, const unsigned char *b, size_t n) { (void)a; (void)b; (void)n; return 1; }
+const char *esc_tag(const char *str, char *buffer) { (void)buffer; return str; }
+void state_usage_file(struct snapraid_state *state, struct snapraid_disk *disk, struct snapraid_file *file) { (void)state; (void)disk; (void)file; }
+void state_usage_hash(struct snapraid_state *state) { (void)state; }
 #endif
 
 /* the REAL translation unit */
@@ -57,6 +73,12 @@ void log_fatal(const char *format, ...) { (void)format; }
 
 /* ---------------------------------------------------------------- drivers */
 struct verif_in {
+	/* classify region */
+	unsigned cstate;
+	int ts_diff, task_state, file_unsynced0, block_unsynced0, rehash;
+	unsigned char dcur[HASH_MAX], dprev[HASH_MAX], rec[HASH_MAX];
+	int hsize;
+	unsigned io_limit;
 	int plan;
 	snapraid_info info;
 	block_off_t i;
@@ -179,6 +201,84 @@ void h_mark(void)
 		int stored = !silent && !ioerr && !generic && rehash && rh[j].block != 0;
 		for (k = 0; k < HASH_MAX; ++k)
 			VERIF_ASSERT(b->hash[k] == (stored ? rh[j].hash[k] : oldhash[j][k]), "scrub stores migrated hashes only for a stripe verified correct");
+	}
+	VERIF_CANARY();
+}
+#endif
+
+/*
+ * Region: how scrub classifies what it finds on one disk of a stripe (per-disk loop body of state_scrub_process).
+ *   a block whose parity is not valid (pending, replaced OR deleted - whether or not it still has a file) or whose file
+ *   changed its time-stamp makes the stripe "unsynced": differences there are plain errors, never silent errors and never
+ *   a reason to mark the stripe bad; a hash mismatch on a synced file is a silent error; read errors are I/O errors.
+ */
+#ifdef VERIF_CLASSIFY_REGION
+#include "region_scrub_classify.c"
+
+void h_classify(void)
+{
+	static struct snapraid_state st;
+	static struct snapraid_disk disk;
+	static struct snapraid_file file;
+	static struct snapraid_task task;
+	static unsigned char blk1[sizeof(struct snapraid_block) + HASH_MAX];
+	struct snapraid_block *b = (struct snapraid_block *)blk1;
+	struct snapraid_rehash rh[2];
+	void *buffer[2];
+	static unsigned char data[8];
+	unsigned error = 0, silent_error = 0, io_error = 0;
+	int error_on = 0, silent_on = 0, io_on = 0, block_unsynced, file_unsynced, bailed = 0, k, mismatch = 0, invalid, hasfile, updated;
+	const unsigned char *cmp;
+	VERIF_INPUTS();
+	VERIF_ASSUME(IN.hsize >= 2 && IN.hsize <= HASH_MAX);
+	VERIF_ASSUME(IN.cstate == BLOCK_STATE_BLK || IN.cstate == BLOCK_STATE_CHG || IN.cstate == BLOCK_STATE_REP || IN.cstate == BLOCK_STATE_DELETED || IN.cstate == BLOCK_STATE_EMPTY);
+	VERIF_ASSUME(IN.task_state == TASK_STATE_DONE || IN.task_state == TASK_STATE_ERROR_CONTINUE || IN.task_state == TASK_STATE_IOERROR_CONTINUE);
+	VERIF_ASSUME(IN.io_limit >= 2);
+	BLOCK_HASH_SIZE = IN.hsize;
+	st.hash = HASH_MURMUR3;
+	st.prevhash = HASH_SPOOKY2;
+	st.opt.io_error_limit = IN.io_limit;
+	b->state = IN.cstate;
+	for (k = 0; k < HASH_MAX; ++k) {
+		b->hash[k] = IN.rec[k];
+		G_DIG_CUR[k] = IN.dcur[k];
+		G_DIG_PREV[k] = IN.dprev[k];
+	}
+	task.state = IN.task_state;
+	task.is_timestamp_different = IN.ts_diff != 0;
+	file.sub = "f";
+	buffer[0] = buffer[1] = data;
+	block_unsynced = IN.block_unsynced0 != 0;
+	file_unsynced = IN.file_unsynced0 != 0;
+	cmp = IN.rehash ? IN.dprev : IN.dcur;
+	for (k = 0; k < HASH_MAX; ++k)
+		if (k < IN.hsize && cmp[k] != IN.rec[k])
+			mismatch = 1;
+	invalid = IN.cstate == BLOCK_STATE_CHG || IN.cstate == BLOCK_STATE_REP || IN.cstate == BLOCK_STATE_DELETED;
+	hasfile = IN.cstate == BLOCK_STATE_BLK || IN.cstate == BLOCK_STATE_CHG || IN.cstate == BLOCK_STATE_REP;
+	updated = IN.cstate == BLOCK_STATE_BLK || IN.cstate == BLOCK_STATE_REP;
+#ifdef VERIF_NATIVE
+	exit(77);
+#endif
+	region_scrub_classify(&st, IN.cstate == BLOCK_STATE_EMPTY ? BLOCK_NULL : b, &disk, &file, &task, IN.rehash != 0, rh, buffer, 1, 5, 0, 0,
+		&block_unsynced, &file_unsynced, &error, &error_on, &silent_error, &silent_on, &io_error, &io_on, &bailed);
+
+	VERIF_ASSERT(block_unsynced == (IN.block_unsynced0 || invalid || (hasfile && IN.ts_diff)), "scrub: a block with invalid parity (file or not) or a changed time-stamp makes the stripe unsynced");
+	VERIF_ASSERT(file_unsynced == (IN.file_unsynced0 || invalid || (hasfile && IN.ts_diff)), "scrub: ... and its file unsynced");
+	VERIF_ASSERT(!bailed, "scrub: continuation-class states never abort the run below the error limit");
+	if (!hasfile) {
+		VERIF_ASSERT(!error_on && !silent_on && !io_on, "scrub: a position without file raises nothing");
+	} else if (IN.task_state == TASK_STATE_ERROR_CONTINUE) {
+		VERIF_ASSERT(error_on && error == 1 && !silent_on && !io_on, "scrub: an unreadable / changed file is a plain error");
+	} else if (IN.task_state == TASK_STATE_IOERROR_CONTINUE) {
+		VERIF_ASSERT(io_on && io_error == 1 && !silent_on && !error_on, "scrub: a read EIO is an I/O error on this stripe");
+	} else if (updated && mismatch) {
+		if (file_unsynced)
+			VERIF_ASSERT(error_on && error == 1 && !silent_on, "scrub: a difference in an unsynced file is a plain error, never a silent error");
+		else
+			VERIF_ASSERT(silent_on && silent_error == 1 && !error_on, "scrub: a difference in a synced file is a silent error");
+	} else {
+		VERIF_ASSERT(!error_on && !silent_on && !io_on, "scrub: matching data (or a block without trusted hash) raises nothing");
 	}
 	VERIF_CANARY();
 }
